@@ -5,11 +5,11 @@ package main
 import (
 	"encoding/json"
 	"fmt"
-	"reflect"
 	"math/rand/v2"
 	"os"
 	"os/exec"
 	"path/filepath"
+	"reflect"
 	"sort"
 	"strconv"
 	"strings"
@@ -79,7 +79,7 @@ func c20schema(r *rand.Rand) string {
 				case 2:
 					f.typ, f.def = "string", ""
 				default:
-					f.typ, f.def = `*` + v + ` | "x" | "y"`, v
+					f.typ, f.def = `*`+v+` | "x" | "y"`, v
 				}
 				if r.IntN(5) == 0 { // several defaults: data has to pick one of them
 					f.typ, f.def = `*"small" | *"large" | string`, pick(`"small"`, `"large"`)
